@@ -145,6 +145,11 @@ def _cat(n):
         # a preamble and a braced value ending in a backslash (a TeX control space before the delimiter)
         (f"@preamble{{tex {n}\\ }}", ("preamble", f"tex {n}\\")),
         (f"@string{{w{n} = {{x{n}\\ }}}}", ("string", f"w{n}", f"{{x{n}\\ }}")),
+        # entry types that merely contain or begin with a keyword
+        (f"@ReviewComment{{r{n}, a = {{1}}}}", ("entry", "reviewcomment", f"r{n}", (("a", "{1}"),))),
+        (f"@Commentary {{y{n}, title = {{T}}}}", ("entry", "commentary", f"y{n}", (("title", "{T}"),))),  # (a biblatex type)
+        (f"@stringent{{q{n}, b = 2}}", ("entry", "stringent", f"q{n}", (("b", "2"),))),
+        (f"@preambles{{z{n}}}", ("entry", "preambles", f"z{n}", ())),
     ]
 
 
